@@ -819,6 +819,10 @@ def model_specs(draw, profile=None):
     if g.coin(0.5):
         spec["comps"] = list(draw(st.permutations(spec["comps"])))  # the sheet order of compartments is free
         g.labels.add("comps:sheet-order-shuffled")
+    n_first = len([c for c in spec["comps"] if c.get("type", "hum") == "hum" or "type" not in c])
+    if n_first >= 2 and g.coin(p.get("p_split_transitions", 0.15)):
+        spec["split_transitions"] = {"k": draw(st.integers(1, n_first - 1)), "rev": g.coin(0.5)}
+        g.labels.add("transitions:split-matrix")
     spec["pars"] = [{k: v for k, v in d.items() if not k.startswith("_")} for d in pars.values()]
     spec["links"] = [[a, b, v] for (a, b), v in links.items() if v]
     g.labels.add("pops:%d" % n_pops)
